@@ -20,7 +20,9 @@ import typing
 from vlib import corpus, pool
 
 LEVEL = "exploration"
-MARKERS = ["_type", "_bytes", "_bytesio", "value", "DocxContent", "EmailAttachment", "QUJDRA==", "", "plain text", "ünï 😀", '{"_type": "PdfContent"}', "null"]
+MARKERS = ["_type", "_bytes", "_bytesio", "value", "DocxContent", "EmailAttachment", "QUJDRA==", "", "plain text", "ünï 😀", '{"_type": "PdfContent"}', "null",
+           # strings a constructor may normalise: whatever it does must be stable when from_json runs the constructor a second time
+           "  padded both sides  ", "ends in blank and NUL \x00", "\x00 \x00", "line end\r\n", "\u00a0 no-break blanks \u00a0", "tab\t"]
 
 
 def work_init(init):
@@ -55,6 +57,42 @@ def _binary_leaves(obj, path="$", out=None, depth=0):
         for i, v in enumerate(obj):
             _binary_leaves(v, f"{path}[{i}]", out, depth + 1)
     return out
+
+
+def _binary_state(obj):
+    """path -> (type name, content) of every binary leaf reachable the way the serializer walks."""
+    st = {}
+
+    def walk(o, path, depth):
+        if depth > 40:
+            return
+        if isinstance(o, io.BytesIO):
+            st[path] = ("BytesIO", o.getvalue())
+        elif isinstance(o, (bytes, bytearray)):
+            st[path] = (type(o).__name__, bytes(o))
+        elif dataclasses.is_dataclass(o) and not isinstance(o, type):
+            for f in dataclasses.fields(o):
+                walk(getattr(o, f.name), f"{path}.{f.name}", depth + 1)
+        elif isinstance(o, dict):
+            for k, v in o.items():
+                walk(v, f"{path}.{k}", depth + 1)
+        elif isinstance(o, (list, tuple, set)):
+            for i, v in enumerate(o):
+                walk(v, f"{path}[{i}]", depth + 1)
+    walk(obj, "$", 0)
+    return st
+
+
+def _binary_restored(obj, back, label):
+    """'restores the same object': every binary field of the original is the same kind of object with the same bytes afterwards
+    (to_json() of the rebuilt object cannot show this: a marker dict left undecoded serialises to itself)."""
+    a, b = _binary_state(obj), _binary_state(back)
+    for pth, (tp, val) in a.items():
+        if pth not in b:
+            return [{"sym": "roundtrip-binary-field-not-restored", "detail": f"{label}: {pth} was {tp} of {len(val)} bytes, is not a binary object after from_json"}]
+        if b[pth] != (tp, val):
+            return [{"sym": "roundtrip-binary-field-differs", "detail": f"{label}: {pth} was {tp} of {len(val)} bytes, is {b[pth][0]} of {len(b[pth][1])} bytes after from_json"}]
+    return []
 
 
 def _diff_paths(a, b, path="$", out=None):
@@ -112,6 +150,7 @@ def roundtrip_problems(obj, label) -> list[dict]:
     d = _diff_paths(json.loads(s), j2)
     if d:
         probs.append({"sym": "roundtrip-json-differs", "detail": f"{label}: {d[:3]}"})
+    probs += _binary_restored(obj, back, label)
     # behaviour of the rebuilt object
     for acc in ("get_full_text", "get_text"):
         if hasattr(obj, acc):
@@ -279,9 +318,9 @@ def _build(tp, rng, depth, registry, doc_keys=False):
     if tp is float:
         return rng.choice([0.5, -1.25, 1e10])
     if tp is bytes or tp is bytearray:
-        return bytes(rng.randrange(256) for _ in range(rng.randint(0, 40)))
+        return bytes(rng.randrange(256) for _ in range(rng.choice([0, 0, 1, 2, rng.randint(0, 40)])))     # zero-length payloads are legal (an empty picture part)
     if tp is io.BytesIO:
-        return io.BytesIO(bytes(rng.randrange(256) for _ in range(rng.randint(0, 40))))
+        return io.BytesIO(bytes(rng.randrange(256) for _ in range(rng.choice([0, 0, 1, 2, rng.randint(0, 40)]))))
     if isinstance(tp, type) and dataclasses.is_dataclass(tp):
         return _instance(tp, rng, depth + 1, registry)
     if isinstance(tp, type) and getattr(tp, "_is_protocol", False):
@@ -352,6 +391,7 @@ def work_typed(case):
             d = _diff_paths(j, j2)
             if d:
                 out["probs"].append({"sym": "roundtrip-json-differs", "detail": f"{case['cls']}: {d[:3]}"})
+            out["probs"] += _binary_restored(obj, back, case["cls"])
     except Exception as e:
         out["probs"].append({"sym": f"from-json-raises-{type(e).__name__}", "detail": f"{case['cls']}: {e}"[:300]})
     try:
